@@ -935,7 +935,7 @@ namespace avel {
     [[nodiscard]]
     AVEL_FINL mask16x32f signbit(vec16x32f v) {
         #if defined(AVEL_AVX512DQ)
-        return mask16x32f{_mm512_fpclass_ps_mask(decay(v), 0x40 | 0x04 | 0x10)};
+        return mask16x32f{_mm512_movepi32_mask(_mm512_castps_si512(decay(v)))};
 
         #elif defined(AVEL_AVX512F)
         return mask16x32f{_mm512_cmplt_epi32_mask(_mm512_castps_si512(decay(v)), _mm512_setzero_si512())};
